@@ -247,6 +247,11 @@ fn specs(thorough: bool) -> Vec<Spec> {
 }
 
 pub fn run(cli: Cli) -> ! {
+    run_with(cli, &|_| {})
+}
+
+/// `extra` adds to the same report (netsim hosts this check and adds whole connections through the assembled router)
+pub fn run_with(cli: Cli, extra: &dyn Fn(&Report)) -> ! {
     let rep = Report::new("C07", cli.tier, "model_checking");
     if let Some(case) = cli.replay.clone() {
         let s: Spec = serde_json::from_value(case["spec"].clone()).unwrap_or_else(|e| common::machinery(&format!("bad replay: {e}")));
@@ -312,5 +317,6 @@ pub fn run(cli: Cli) -> ! {
     rep.assume("time is tokio's paused clock; real-valued time is represented by the +-1 ms neighbours of the period");
     rep.assume("an echo emitted at exactly the instant the next Keep Alive is due, and routing completing at exactly that instant, are outside the statement and not judged");
     rep.assume("'before the next one is due' is read off the observed log: a drop is only judged wrong if the echo was emitted strictly before the Disconnect; a silent client must be gone 16 s after the unechoed Keep Alive");
+    extra(&rep);
     rep.finish()
 }
